@@ -16,6 +16,7 @@ import (
 	"math/rand"
 	"os"
 	"reflect"
+	"strings"
 
 	"github.com/notaryproject/notation-core-go/signature"
 	_ "github.com/notaryproject/notation-core-go/signature/cose"
@@ -34,6 +35,9 @@ type Desc struct {
 	Size        int64       `json:"size"`
 	Annotations [][2]string `json:"annotations"`
 }
+
+// oddMediaTypes are what a signed descriptor may carry where the request has none
+var otherMediaTypes = []string{"application/vnd.oci.image.index.v1+json", "text/x-shellscript", "x", " "}
 
 type Input struct {
 	Api       string `json:"api"`    // sign | signBlob
@@ -57,6 +61,8 @@ type Input struct {
 	SigMode   string `json:"sigMode"` // good | flipped | otherKey | wrongHash | emptySig
 	Chain     string `json:"chain"`   // ok | selfSigned | empty | garbage | otherKey | otherSpec
 	DupKeys   bool   `json:"dupKeys"`
+	// the requested descriptor carries an empty, non-nil annotation map (only when it has no annotations)
+	EmptyAnnMap bool `json:"emptyAnnMap"`
 }
 
 type Obs struct {
@@ -248,8 +254,11 @@ func pick(r *rand.Rand, xs ...string) string { return xs[r.Intn(len(xs))] }
 // ---------------------------------------------------------------------------------------
 // one case
 
-func toOCI(d Desc) ocispec.Descriptor {
+func toOCI(d Desc, emptyMap bool) ocispec.Descriptor {
 	o := ocispec.Descriptor{MediaType: d.MediaType, Digest: digest.Digest(d.Digest), Size: d.Size}
+	if emptyMap && len(d.Annotations) == 0 {
+		o.Annotations = map[string]string{}
+	}
 	if len(d.Annotations) > 0 {
 		o.Annotations = map[string]string{}
 		for _, kv := range d.Annotations {
@@ -262,7 +271,7 @@ func toOCI(d Desc) ocispec.Descriptor {
 func runCase(c *common.Ctx, w *world, in *Input) {
 	in.DupKeys = hasDup(in.Payload)
 	p := &plug{in: in, w: w, r: rand.New(rand.NewSource(c.Rand.Int63()))}
-	desc := toOCI(in.Req)
+	desc := toOCI(in.Req, in.EmptyAnnMap)
 	opts := notation.SignerSignOptions{SignatureMediaType: mediaOf(in.Format)}
 	var sig []byte
 	var info *signature.SignerInfo
@@ -340,7 +349,7 @@ func inspect(in *Input, p *plug, desc ocispec.Descriptor, sig []byte, info *sign
 // ---------------------------------------------------------------------------------------
 // generator
 
-var mediaTypes = []string{"application/vnd.oci.image.manifest.v1+json", "application/vnd.docker.distribution.manifest.v2+json", "application/octet-stream", "m"}
+var mediaTypes = []string{"application/vnd.oci.image.manifest.v1+json", "application/vnd.docker.distribution.manifest.v2+json", "application/octet-stream", "m", ""}
 var annKeys = []string{"a", "b", "org.opencontainers.image.title", "io.cncf.notary.x", "A"}
 var annVals = []string{"1", "2", "", "x y", "é"}
 
@@ -349,6 +358,9 @@ func genDesc(r *rand.Rand) Desc {
 	var b [32]byte
 	r.Read(b[:])
 	d.Digest = fmt.Sprintf("sha256:%x", b)
+	if r.Intn(12) == 0 {
+		d.Digest = "" // a library caller may pass anything
+	}
 	switch r.Intn(6) {
 	case 0:
 		d.Size = 0
@@ -379,6 +391,15 @@ func base(r *rand.Rand, api, cap_, format, key string) *Input {
 }
 
 var badKeySpecs = []string{"", "RSA-1024", "rsa-2048", "EC-512", "EC-256 ", "ED25519", "RSA2048", "EC-521\n"}
+
+// keySpecSpellings: the right name of the key spec, written another way (the wire format names
+// exactly six strings; blanks, line ends, case, padding are NOT part of them)
+func keySpecSpellings(name string) []string {
+	return []string{name + "\n", name + "\r\n", " " + name, name + " ", "\t" + name + "  ", "\u00a0" + name + "\u00a0", name + "\v", "\f" + name,
+		"\u0085" + name, "\u2003" + name, name + "\u0000", strings.ToLower(name), strings.Replace(name, "-", "_", 1), strings.Replace(name, "-", " -", 1),
+		strings.Replace(name, "-", "", 1), "\"" + name + "\"", name + ";", name + "\\n", "\ufeff" + name}
+}
+
 var gsAlgs = []string{"", "ECDSA-SHA-256", "RSASSA-PSS-SHA-512", "RSASSA-PKCS1-v1_5-SHA-256", "none", "ES256"}
 var sigModes = []string{"flipped", "otherKey", "wrongHash", "emptySig"}
 var chains = []string{"selfSigned", "empty", "garbage", "otherKey", "otherSpec"}
@@ -415,6 +436,11 @@ func cryptoMutation(r *rand.Rand, in *Input) string {
 		in.GsKeyIdOk = false
 		return "gsKeyId"
 	case 8:
+		if r.Intn(2) == 0 {
+			sp := keySpecSpellings(specOf[in.Key])
+			in.DkKeySpec = sp[r.Intn(len(sp))]
+			return "dkKeySpec:spelling"
+		}
 		in.DkKeySpec = badKeySpecs[r.Intn(len(badKeySpecs))]
 		return "dkKeySpec:undecodable"
 	case 9:
@@ -515,6 +541,29 @@ func Run(c *common.Ctx) error {
 					c.Count("gen=otherSpecConsistentClaim")
 					runCase(c, w, in)
 				}
+			}
+		}
+	}
+	// 1b. describe-key names the RIGHT key spec in another spelling (raw-signature plugins; SignBlob
+	// reads the key spec on the envelope path too)
+	kn := 0
+	for _, api := range apis {
+		for _, f := range formats {
+			for _, k := range keyNames {
+				for si := range keySpecSpellings(specOf[k]) {
+					if !c.Thorough() && (si+kn)%3 != 0 { // quick tier: a third of the grid, rotating
+						continue
+					}
+					cp := "raw"
+					if api == "signBlob" && si%4 == 3 {
+						cp = "envelope"
+					}
+					in := base(r, api, cp, f, k)
+					in.DkKeySpec = keySpecSpellings(specOf[k])[si]
+					c.Count("gen=keySpecSpelling")
+					runCase(c, w, in)
+				}
+				kn++
 			}
 		}
 	}
@@ -624,6 +673,63 @@ func Run(c *common.Ctx) error {
 			}
 		}
 	}
+	// 2d. odd but legal requests (no media type, no digest, size 0, nothing at all, empty annotation
+	// map) crossed with a signed descriptor that differs in exactly ONE of mediaType / digest / size
+	for _, f := range formats {
+		for _, odd := range []string{"noMediaType", "noDigest", "sizeZero", "onlyDigest", "onlySize", "emptyAnnMap", "plain"} {
+			for _, field := range []string{"mediaType", "digest", "size", "none"} {
+				for _, how := range []string{"other", "drop", "null", "zero"} {
+					if field == "none" && how != "other" {
+						continue
+					}
+					in := base(r, apis[n%2], "envelope", f, keyNames[n%6])
+					n++
+					in.Req.Annotations = [][2]string{}
+					switch odd {
+					case "noMediaType":
+						in.Req.MediaType = ""
+					case "noDigest":
+						in.Req.Digest = ""
+					case "sizeZero":
+						in.Req.Size = 0
+					case "onlyDigest":
+						in.Req.MediaType, in.Req.Size = "", 0
+					case "onlySize":
+						in.Req.MediaType, in.Req.Digest, in.Req.Size = "", "", 1+int64(r.Intn(9))
+					case "emptyAnnMap":
+						in.EmptyAnnMap = true
+					}
+					in.Payload = goodPayload(in.Req)
+					t := target(&in.Payload)
+					if i := memberIndex(t, field); i >= 0 {
+						switch how {
+						case "other":
+							switch field {
+							case "mediaType":
+								t.O[i].Val = Str(otherMediaTypes[r.Intn(len(otherMediaTypes))])
+							case "digest":
+								t.O[i].Val = Str(fmt.Sprintf("sha256:%064x", r.Int63()))
+							default:
+								t.O[i].Val = Num(in.Req.Size + 1 + int64(r.Intn(3)))
+							}
+						case "drop":
+							t.O = append(t.O[:i], t.O[i+1:]...)
+						case "null":
+							t.O[i].Val = Null()
+						default:
+							if field == "size" {
+								t.O[i].Val = Num(0)
+							} else {
+								t.O[i].Val = Str("")
+							}
+						}
+					}
+					c.Count("gen=oddRequest:" + odd + "/" + field + ":" + how)
+					runCase(c, w, in)
+				}
+			}
+		}
+	}
 	// 3. random combinations
 	total := 3000
 	if c.Thorough() {
@@ -660,6 +766,9 @@ func Run(c *common.Ctx) error {
 		}
 		if r.Intn(6) == 0 {
 			in.Spaced = true
+		}
+		if r.Intn(4) == 0 {
+			in.EmptyAnnMap = true
 		}
 		c.Count(fmt.Sprintf("gen=random(%d deviations)", len(tags)))
 		runCase(c, w, in)
